@@ -301,6 +301,26 @@ def gen_gmut(rng):
     return ["g", g, "dirty"]
 
 
+def gen_same(rng):
+    """a call that hands a method the value that is already there (or the state in which its guard makes it a no-op)"""
+    r = rng.random()
+    if r < 0.30:
+        return ["k", gen_cref(rng, 0.05), "transformation", "same"]
+    if r < 0.42:
+        return ["k", gen_cref(rng, 0.05), "move", 0, 0]
+    if r < 0.54:
+        return ["k", gen_cref(rng, 0.05), "baseGlyph", "same"]
+    if r < 0.66:
+        return ["g", rng.choice(NAMES[:4]), rng.choice(["width", "note", "unicodes"]), "same"]
+    if r < 0.78:
+        return ["groups", "set", rng.choice(GROUPKEYS), "same"]
+    if r < 0.88:
+        return ["c", gen_cref(rng, 0.05), "identifier", "id1"]
+    if r < 0.94:
+        return ["c", gen_cref(rng, 0.05), "genId"]
+    return ["c", gen_cref(rng, 0.05), "move", 0, 0]
+
+
 def gen_struct(rng):
     r = rng.random()
     g = rng.choice(NAMES[:4])
@@ -396,7 +416,11 @@ def gen_case(rng, maxlen):
             ops.append(gen_request(rng))
             continue
         kind = focus if (focus != "mix" and rng.random() < 0.6) else rng.choice(["c", "c", "k", "g", "s", "s", "groups"])
-        if kind == "s" and rng.random() < 0.2:
+        if rng.random() < 0.08:
+            ops.append(gen_same(rng))
+            if rng.random() < 0.7:
+                ops.append(["getall"])
+        elif kind == "s" and rng.random() < 0.2:
             ops.extend(gen_churn(rng))
         else:
             ops.append({"c": gen_cmut, "k": gen_kmut, "g": gen_gmut, "s": gen_struct, "groups": gen_groups}[kind](rng))
@@ -673,6 +697,14 @@ def gen_directed(rng):
         muts.append([["instk", b, NAMES[3], gen_tr(rng)]])
     for _ in range(6):
         muts.append([gen_groups(rng)])
+    muts.append([["k", ["a", NAMES[0], 0], "transformation", "same"]])
+    muts.append([["k", ["a", NAMES[1], 0], "move", 0, 0]])
+    muts.append([["k", ["a", NAMES[1], 0], "baseGlyph", "same"]])
+    muts.append([["g", NAMES[2], "width", "same"]])
+    muts.append([["g", NAMES[1], "unicodes", "same"]])
+    muts.append([["groups", "set", "public.kern1.O", "same"]])
+    muts.append([["c", ["a", NAMES[2], 0], "identifier", "id1"], ["getall"], ["c", ["a", NAMES[2], 0], "identifier", "id2"]])
+    muts.append([["c", ["a", NAMES[2], 0], "genId"], ["getall"], ["c", ["a", NAMES[2], 0], "genId"]])
     for mu in muts:
         ops = [["newGlyph", n] for n in NAMES[:4]]
         # A -> B -> C -> D chain, contours everywhere
@@ -1751,7 +1783,18 @@ class Impl(object):
     # `same` = the condition of the method's no-op guard holds in the state before the call (equal value, open
     # contour, empty dict ...), evaluated here on the real objects; what a `same` call does - nothing, or everything
     # but a rewrite - and which cells an effective call rewrites is decided by the table in lean/DefconModel/ReprCells.lean
+    # methods that compare first and return: called with what is already there they change nothing and must not cost a
+    # cached value (oracle clause runs-once: such a call is not a change).  The other mutators post whatever they are given.
+    COMPARES_FIRST = {"setStartPoint", "_set_clockwise", "_set_identifier", "generateIdentifier", "generateIdentifierForPoint",
+                      "_set_baseGlyph", "_set_transformation", "_set_width", "_set_height", "_set_note", "_set_unicodes",
+                      "decomposeAllComponents", "__setitem__", "pop", "setdefault"}
+
     def call(self, obj, meth, eff=True, arg=None):
+        if not eff and (meth in self.COMPARES_FIRST or (meth in ("move", "clear") and obj is not None and
+                                                        type(obj).__name__ in ("Component", "Groups"))):
+            self.noop_calls += 1
+        else:
+            self.real_calls += 1
         item = [Atom("call"), enc_obj(self.key_of(obj)[:2]), meth, Atom("eff" if eff else "same")]
         if arg is not None:
             item.append(arg)
@@ -1896,6 +1939,8 @@ class Impl(object):
         try:
             if meth == "baseGlyph":
                 new = args[0]
+                if new == "same":
+                    new = comp.baseGlyph
                 if new == comp.baseGlyph:
                     comp.baseGlyph = new
                     return [self.call(comp, "_set_baseGlyph", False, [Atom("base"), opt(new)])], [OK], True
@@ -1909,7 +1954,7 @@ class Impl(object):
                 comp.baseGlyph = new
                 return [self.call(comp, "_set_baseGlyph", True, [Atom("base"), opt(new)])], [OK], True
             if meth == "transformation":
-                new = tuple(args[0])
+                new = comp.transformation if args[0] == "same" else tuple(args[0])
                 eff = new != comp.transformation
                 comp.transformation = new
                 return [km("_set_transformation", eff)], [OK], True
@@ -1942,6 +1987,8 @@ class Impl(object):
         def gm(m, eff=True, arg=None):
             return self.call(g, m, eff, arg)
         if meth in ("width", "height", "note", "unicodes"):
+            if args[0] == "same":
+                args = [getattr(g, meth)]
             eff = getattr(g, meth) != args[0]
             setattr(g, meth, args[0])
             return [gm("_set_" + meth, eff)], [OK], True
@@ -2008,6 +2055,10 @@ class Impl(object):
         try:
             if meth == "set":
                 k, v = args
+                if v == "same":
+                    if k not in G:
+                        return None
+                    v = list(G[k])
                 eff = not (k in G and v is not None and G[k] == v)
                 G[k] = list(v)
                 return [gs("__setitem__", eff)], [OK], True
@@ -2170,6 +2221,7 @@ def trace(case, judge=True):
             if reader is not None:
                 reader.sync()
             fp_before = im.fingerprints() if with_model else None
+            im.noop_calls = im.real_calls = 0
             try:
                 r = im.do(op)
             except Exception as e:
@@ -2190,6 +2242,9 @@ def trace(case, judge=True):
                 im.outs.append(Atom("skip"))
                 continue
             prims, res, mutating = r
+            if mutating and im.noop_calls and not im.real_calls and op[0] in ("c", "k", "g", "groups", "L2"):
+                mutating = False           # same value given to a method that compares first: not a change
+                im.bump("call.same-value")
             site = _site(op)
             # runs inside a mutator count for the interval that ends with it
             im.check_runs(site, mutating)
@@ -2214,6 +2269,8 @@ def trace(case, judge=True):
 
 
 Impl.had_cached = False
+Impl.noop_calls = 0
+Impl.real_calls = 0
 Impl.no_runs_clause = False
 Impl.interval_before = {}
 Impl.cached_before = set()
